@@ -53,6 +53,10 @@ fn hooked<T: Send + 'static>(script: Vec<[u8; 32]>, f: impl FnOnce() -> Result<T
 }
 
 // ------------------------------------------------------------------------------------------------ C16
+/// identities that imitate structure: edge white space, a trailing / leading / lone NUL, bytes >= 0x80, an inner NUL -- all hashed exactly as given
+pub fn edge_ids() -> Vec<Vec<u8>> {
+    vec![b"Bob\n".to_vec(), b" Bob".to_vec(), b"Bob ".to_vec(), b"Bob\r\n".to_vec(), b"Bob\0".to_vec(), b"\0Bob".to_vec(), b"\0".to_vec(), b"Bo\0b".to_vec(), vec![0x80, 0xff, 0x00], b"BOB".to_vec()]
+}
 pub fn drive_hash(t: &mut Tracer, tier: &str, seed: u64, plan: Option<String>) {
     let thorough = tier == "thorough";
     let mut rng = Rng(seed ^ 0x9016);
@@ -60,7 +64,7 @@ pub fn drive_hash(t: &mut Tracer, tier: &str, seed: u64, plan: Option<String>) {
     let mut sess = || { n += 1; format!("sm9h/{}", n) };
     let from_hash = |t: &mut Tracer, s: String, ha: &[u8], cls: &str| {
         let h = ha.to_vec();
-        let o = guard_plain(move || mod_n_from_hash(&h));
+        let o = guard_timed(20, move || Ok::<_, String>(mod_n_from_hash(&h)));          // (under the watchdog: a reduction loop that does not terminate is a verdict, not a hung driver)
         let ob = o.ok().map(|x| ub(x)).unwrap_or(vec![0u8; 32]);
         t.emit(&s, "sm9.from_hash", json!({"prop": "C16", "ha": bytes(ha), "cls": cls, "out": bytes(&ob), "outcome": o.name(), "detail": o.detail()}));
     };
@@ -89,6 +93,12 @@ pub fn drive_hash(t: &mut Tracer, tier: &str, seed: u64, plan: Option<String>) {
             t.emit(&sess(), "sm9.hash2", json!({"prop": "C16", "data": bytes(&id), "w": bytes(&w), "out": bytes(&o.ok().map(|x| ub(x)).unwrap_or(vec![0u8; 32])), "outcome": o.name(), "detail": o.detail()}));
         }
     }
+    for (i, idv) in edge_ids().iter().enumerate() {
+        let hid = [1u8, 2, 3][i % 3];
+        let id2 = idv.clone();
+        let o = guard_plain(move || gm_sm9::key::verif_hash1(&id2, hid));
+        t.emit(&sess(), "sm9.hash1", json!({"prop": "C16", "idb": bytes(idv), "hid": hid, "out": bytes(&o.ok().map(|x| ub(x)).unwrap_or(vec![0u8; 32])), "outcome": o.name(), "detail": o.detail()}));
+    }
     // extraction: Annex keys, random / edge master keys, crafted zero keys
     let nhex = hexb(N9_HEX);
     let mut masters: Vec<(Vec<u8>, Vec<u8>, &'static str)> = vec![
@@ -110,6 +120,7 @@ pub fn drive_hash(t: &mut Tracer, tier: &str, seed: u64, plan: Option<String>) {
         masters.push((k, rng.bytes(3 + i), ["sign", "enc", "exch"][i % 3]));
     }
     for i in 0..4 { masters.push((sparse_scalar(&mut rng, i), rng.bytes(4 + i), ["enc", "exch", "sign"][i % 3])); }
+    for (i, idv) in edge_ids().iter().enumerate() { masters.push((scalar(&mut rng), idv.clone(), ["sign", "enc", "exch"][i % 3])); masters.push((scalar(&mut rng), idv.clone(), ["enc", "exch", "sign"][i % 3])); }
     for v in &planv {
         if v["kind"] == "smallh1" && v["found"] == 1 {
             // an identity whose H1 has a leading zero byte (searched by the specification): the hash itself and an extraction that uses it
@@ -119,7 +130,7 @@ pub fn drive_hash(t: &mut Tracer, tier: &str, seed: u64, plan: Option<String>) {
             t.emit(&sess(), "sm9.hash1", json!({"prop": "C16", "idb": bytes(&idv), "hid": hid, "out": bytes(&o.ok().map(|x| ub(x)).unwrap_or(vec![0u8; 32])), "outcome": o.name(), "detail": o.detail()}));
             masters.push((scalar(&mut rng), idv, match hid { 1 => "sign", 3 => "enc", _ => "exch" }));
         }
-        if v["kind"] == "zerokey" || v["kind"] == "t2key" || v["kind"] == "invkey" || (v["kind"] == "wrapkey" && v["legal"] == 1) { masters.push((arr(&v["k"]), arr(&v["idb"]), match v["hid"].as_u64().unwrap() { 1 => "sign", 3 => "enc", _ => "exch" })); }
+        if v["kind"] == "zerokey" || v["kind"] == "t2key" || v["kind"] == "invkey" || v["kind"] == "nearkey" || (v["kind"] == "wrapkey" && v["legal"] == 1) { masters.push((arr(&v["k"]), arr(&v["idb"]), match v["hid"].as_u64().unwrap() { 1 => "sign", 3 => "enc", _ => "exch" })); }
     }
     for (k, id, kind) in masters {
         let (k2, id2) = (k.clone(), id.clone());
@@ -191,6 +202,28 @@ pub fn drive_sign(t: &mut Tracer, tier: &str, seed: u64, plan: Option<String>) {
             if let Some((h, s, r)) = sign_event(t, &sess(), &c, &id, Some(&g), &m, script) {
                 verify_event(t, &sess(), &c, &c.msk.ppubs, false, &id, Some(&g), &m, &ub(&h), &s, Some(&r), "none");
                 if valid.len() < (if thorough { 6 } else { 1 }) { valid.push((sign_ctx(&c.ks), id.clone(), m.clone(), h, s, r)); }
+            }
+        }
+    }
+    // identities with edge white space / NUL / high bytes; and verification with a VERIFIER-side key object: the right master public key, a placeholder (0, 1) in
+    // the secret field -- the relying party has no secret, and (Ppub-s, ID, M, h, S) fix the answer
+    {
+        let c = sign_ctx(&scalar(&mut rng));
+        for (i, idv) in edge_ids().iter().enumerate() {
+            if !thorough && i % 2 == 1 { continue; }
+            if let Some((h, s, r)) = sign_event(t, &sess(), &c, idv, None, b"identity bytes as given", vec![]) {
+                verify_event(t, &sess(), &c, &c.msk.ppubs, false, idv, None, b"identity bytes as given", &ub(&h), &s, Some(&r), "none");
+                if i < 4 {
+                    for ph in [[0u64; 4], [1, 0, 0, 0]] {
+                        let msk = Sm9SignMasterKey { ks: ph, ppubs: c.msk.ppubs };
+                        let (id2, hu, s2) = (idv.clone(), h, s);
+                        let o = guard_timed(60, move || msk.verify_sign(&id2, b"identity bytes as given", &hu, &s2).map_err(|e| format!("{:?}", e)));
+                        let mut f = json!({"prop": "C09", "ks": bytes(&c.ks), "ppubs": g2_json(&c.msk.ppubs), "keyfault": 0, "idb": bytes(idv), "h": bytes(&ub(&h)), "s": g1_json(&s), "honest": 1, "r": bytes(&r),
+                            "fault": "verifier-only-key", "outcome": o.name(), "detail": o.detail()});
+                        msg_fields(&mut f, None, b"identity bytes as given");
+                        t.emit(&sess(), "sm9.verify", f);
+                    }
+                }
             }
         }
     }
@@ -312,6 +345,16 @@ pub fn drive_encrypt(t: &mut Tracer, tier: &str, seed: u64, plan: Option<String>
         let rs = b32(&sparse_scalar(&mut rng, w % 2));
         if let Some((ct, r)) = encrypt_event(t, &sess(), &annex, b"Bob", None, b"sparse nonce", vec![rs]) {
             decrypt_event(t, &sess(), &annex, b"Bob", b"Bob", &ct, Some(&r), "none");
+        }
+    }
+    // identities with edge white space / NUL / high bytes: key extraction, encryption and decryption all hash the bytes as given
+    {
+        let c = enc_ctx(&scalar(&mut rng));
+        for (i, idv) in edge_ids().iter().enumerate() {
+            if !thorough && i % 2 == 0 && i > 1 { continue; }
+            if let Some((ct, r)) = encrypt_event(t, &sess(), &c, idv, None, b"identity bytes as given", vec![]) {
+                decrypt_event(t, &sess(), &c, idv, idv, &ct, Some(&r), "none");
+            }
         }
     }
     // the ends of the range of r: 1 and N - 2
@@ -503,6 +546,14 @@ pub fn drive_kex(t: &mut Tracer, tier: &str, seed: u64) {
         let ke = scalar(&mut rng);
         let (ra, rb) = (b32(&sparse_scalar(&mut rng, w % 2)), b32(&sparse_scalar(&mut rng, (w + 1) % 2)));
         run(t, sess(), &ke, b"alice", b"bob", 24, vec![ra], vec![rb], "none", "none", &mut rng);
+    }
+    // identities with a trailing NUL / edge white space on either side
+    {
+        let ids = edge_ids();
+        for (ia, ib) in [(4usize, 0usize), (1, 4), (6, 2)] {
+            let ke = scalar(&mut rng);
+            run(t, sess(), &ke, &ids[ia], &ids[ib], 16, vec![], vec![], "none", "none", &mut rng);
+        }
     }
     // the ends of the ephemeral range: r = 1 (R = Q itself: a "trivial scalar" shortcut must still return the same POINT) and r = N - 2
     {
@@ -755,6 +806,27 @@ pub fn drive_arith(t: &mut Tracer, tier: &str, seed: u64) {
     }
     // sums that equal the modulus except in ONE 64-bit limb (m - 2^64, m - 2^128, m - 2^192, reached as x + 0 and (x - 5) + 5): a comparison with the
     // modulus that skips or mis-orders a limb reduces them wrongly; modulo p and modulo N
+    // sums that land just BELOW the modulus, at a distance whose low word is above 2^63 / equal to 2^63 / equal to the modulus's low limb (a comparison of the
+    // last limb done on the wrapped difference read as a signed number goes wrong exactly there); also differences a - b with those values
+    for (mhex, is_p) in [(P9_HEX, true), (N9_HEX, false)] {
+        let m = hexb(mhex);
+        let low = u64::from_be_bytes(m[24..32].try_into().unwrap());
+        for d in [(1u64 << 63) + 1, 1u64 << 63, 0x9000_0000_0000_0000, low, low - 1, (1u64 << 63) - 1] {
+            let mut db = vec![0u8; 32]; db[24..32].copy_from_slice(&d.to_be_bytes());
+            let target = crate::suites::sm2::be_sub(&m, &db);                     // m - d
+            let a = { let mut x = rng.bytes(32); x[0] = 0; x };
+            let b = crate::suites::sm2::be_sub(&target, &a);                      // a + b = m - d, no carry
+            if is_p { tower(t, sess(), 1, "add", &a, &b, "near-modulus-sum"); tower(t, sess(), 1, "sub", &target, &a, "near-modulus-sum"); }
+            else {
+                for f in ["add", "sub"] {
+                    let (x, y) = if f == "add" { (a.clone(), b.clone()) } else { (target.clone(), a.clone()) };
+                    let (xu, yu) = (u(&x), u(&y));
+                    let o = guard_plain(move || if f == "add" { mod_n_add(&xu, &yu) } else { gm_sm9::fields::mod_n_sub(&xu, &yu) });
+                    t.emit(&sess(), "modn.op", json!({"prop": "C13", "f": f, "cls": "near-modulus-sum", "a": bytes(&x), "b": bytes(&y), "out": bytes(&o.ok().map(|x| ub(x)).unwrap_or(vec![0u8; 32])), "outcome": o.name(), "detail": o.detail()}));
+                }
+            }
+        }
+    }
     for limb in 0..4usize {
         // (limb 0: the modulus itself -- sums that are exactly m, m - 1, m + 1)
         let pw = { let mut v = vec![0u8; 32]; if limb > 0 { v[31 - 8 * limb] = 1; } v };
@@ -810,6 +882,7 @@ pub fn drive_arith(t: &mut Tracer, tier: &str, seed: u64) {
     let mut scalars: Vec<Vec<u8>> = vec![be_add_small(&vec![0u8; 32], 0), be_add_small(&vec![0u8; 32], 1), be_add_small(&vec![0u8; 32], 2), be_add_small(&nhex, -1), nhex.clone(), be_add_small(&nhex, 1), vec![0xffu8; 32]];
     for _ in 0..(if thorough { 10 } else { 2 }) { scalars.push(rng.bytes(32)); }
     for w in 0..4 { scalars.push(sparse_scalar(&mut rng, w)); }
+    for k in crate::suites::sm2::limb_pattern_scalars().into_iter().take(if thorough { 12 } else { 4 }) { scalars.push(k); }
     let g1op = |t: &mut Tracer, s: String, f: &'static str, p: &Point, q: &Point, k: &[u8], cls: &str| {
         let (p2, q2, ku) = (*p, *q, u(k));
         if f == "equals" {
@@ -948,6 +1021,7 @@ pub fn drive_arith(t: &mut Tracer, tier: &str, seed: u64) {
     let mut ks: Vec<Vec<u8>> = vec![vec![0u8; 32], vec![0xffu8; 32], be_add_small(&vec![0u8; 32], 1), nhex.clone(), { let mut x = vec![0u8; 32]; x[0] = 0x80; x }, vec![0x55u8; 32], vec![0xaau8; 32],
         { let mut x = vec![0u8; 32]; x[23] = 1; x }, { let mut x = vec![0xffu8; 32]; x[24] = 0x7f; x }];
     for _ in 0..(if thorough { 200 } else { 30 }) { ks.push(rng.bytes(32)); }
+    for k in crate::suites::sm2::limb_pattern_scalars() { ks.push(k); }
     for k in &ks {
         for w in [5u64, 7] {
             let nwin = (256 + w - 1) / w;
